@@ -346,6 +346,24 @@ func runC09(r *Run) {
 	checkGrantBranchesAgree(r, "R10")
 	r.Rule("R11", "PATH.schedule-clock-advances-every-period: in ReadSchedule and ReadPastPeriodCount the running time that a period's end is computed from is advanced by that period's Length on every pass through the loop — each back edge carries clock + Length; a `continue` that skips the addition reads every later release event earlier by the skipped period's length")
 	checkClockAdvances(r, "R11")
+	r.Rule("R12", "ERR.failed-steps-fail-the-message: the vesting message server (create / merge, clawback, funder update, conversions) moves coins and rewrites accounts in several steps; a non-nil error of any Context-taking keeper or Haqq call in its handlers reaches failure exits only (shared rule code with C11 R7 / C12 R9)")
+	{
+		var fns []*ssa.Function
+		for _, fn := range r.P.Funcs {
+			if !pathHasSuffix(fnPkgPath(fn), "x/vesting/keeper") || fn.Synthetic != "" || fn.Parent() != nil || isTestSupport(r.P, fn) || fn.Signature.Recv() == nil {
+				continue
+			}
+			ps := fn.Signature.Params()
+			if ps.Len() == 2 && strings.HasPrefix(namedName(deref(ps.At(1).Type())), "Msg") {
+				fns = append(fns, fn)
+			}
+			if fn.Name() == "addGrant" || fn.Name() == "transferClawback" || fn.Name() == "ApplyVestingSchedule" {
+				fns = append(fns, fn)
+			}
+		}
+		n := checkErrorsFailTheMessage(r, "R12", fns, "the steps made before the failing one (coins sent, account rewritten) are committed")
+		r.Floor("R12", "error-returning Context-taking calls in the vesting message path", n, 8)
+	}
 	_ = fmt.Sprint
 }
 
